@@ -30,7 +30,12 @@ def run(chk, tier):
     N = nullness.Nullness(P)
     v, us = N.run(chk, "topology-xml.c", funcs=["hwloc__xml_import_diff_one", "hwloc__xml_import_diff"])
     chk.floor("R-NULLATTR", "optional pointers in hwloc__xml_import_diff_one", v, 5)
-    chk.decided += ['the diff XML buffer export re-runs with the size of the reallocated buffer',
+    chk.rule("R-REFRESHFIRST", "hwloc_topology_diff_build refreshes the distances of EACH of its two topologies before walking that topology's list (must-facts, per argument): the cached object pointers it compares are otherwise NULL (after a dup) or dangling (after a restrict)")
+    import lists
+    nrf = lists.refresh_first(chk, P, only=("hwloc_topology_diff_build",))
+    chk.floor("R-REFRESHFIRST", "distances-list reads in hwloc_topology_diff_build", nrf, 2)
+    chk.decided += ['diff_build refreshes the distances of both topologies before comparing them',
+                    'the diff XML buffer export re-runs with the size of the reallocated buffer',
                     'diff compares type-specific attributes only under the matching object type of both objects',
                     "a diff that build returns can be applied and exported: no NULL value strings are produced (all producer sites, all paths)",
                     "the N-th entry failing leaves the topology as before: apply_diff_one never fails after writing; roll-back re-applies the prefix with REVERSE flipped; returns -N",
